@@ -1,0 +1,187 @@
+//go:build verif
+// +build verif
+
+package pbft
+
+// Hooks for the peer-input check in /verif (compiled only with -tags verif, add-only):
+// access to what ConsensusReactor.Receive queued for the consensus goroutine, a reactor that is
+// "running" while receiveRoutine is played by the stepping driver, the gossip routines as plain
+// calls, and a digest of everything the consensus state holds.
+
+import (
+	"encoding/hex"
+	"fmt"
+	"sort"
+	"strings"
+
+	gcmn "github.com/dappledger/AnnChain/gemmill/modules/go-common"
+	"github.com/dappledger/AnnChain/gemmill/p2p"
+	"github.com/dappledger/AnnChain/gemmill/types"
+)
+
+// VerifPopPeer takes the next message off peerMsgQueue without handling it.
+func (cs *ConsensusState) VerifPopPeer() (ConsensusMessage, string, bool) {
+	select {
+	case mi := <-cs.peerMsgQueue:
+		return mi.Msg, mi.PeerKey, true
+	default:
+		return nil, "", false
+	}
+}
+
+// VerifPeerLen is the number of messages waiting on peerMsgQueue.
+func (cs *ConsensusState) VerifPeerLen() int { return len(cs.peerMsgQueue) }
+
+// VerifStart does what ConsensusReactor.OnStart does (BaseReactor.OnStart, registerEventCallbacks) except
+// that ConsensusState.Start is not called: receiveRoutine is played by the stepping shim.  The reactor
+// uses the event switch the consensus state already has.  Afterwards Receive() treats the reactor as
+// running, in consensus mode or in fast-sync mode.
+func (conR *ConsensusReactor) VerifStart(fastSync bool) error {
+	conR.evsw = conR.conS.evsw
+	conR.fastSync = true // OnStart then skips conS.Start()
+	_, err := conR.Start()
+	conR.fastSync = fastSync
+	return err
+}
+
+// VerifFastSync reports the reactor's mode.
+func (conR *ConsensusReactor) VerifFastSync() bool { return conR.fastSync }
+
+// The three per-peer routines AddPeer starts with `go`, as plain calls: they return when the peer or
+// the reactor stops.  A panic inside propagates to the caller (in production it kills the process).
+func (conR *ConsensusReactor) VerifGossipData(peer *p2p.Peer, ps *PeerState)  { conR.gossipDataRoutine(peer, ps) }
+func (conR *ConsensusReactor) VerifGossipVotes(peer *p2p.Peer, ps *PeerState) { conR.gossipVotesRoutine(peer, ps) }
+func (conR *ConsensusReactor) VerifQueryMaj23(peer *p2p.Peer, ps *PeerState)  { conR.queryMaj23Routine(peer, ps) }
+
+func verifVSDigest(vs *types.VoteSet) string {
+	if vs == nil {
+		return "nil"
+	}
+	p := vs.VerifProject()
+	var b strings.Builder
+	fmt.Fprintf(&b, "h%d r%d t%d sum%d votes[", vs.Height(), vs.Round(), vs.Type(), p.Sum)
+	for i, v := range p.Votes {
+		if p.HasVote[i] {
+			fmt.Fprintf(&b, "%d:%x ", i, v)
+		}
+	}
+	fmt.Fprintf(&b, "] bits%v maj", p.Bits)
+	if p.Maj23 != nil {
+		fmt.Fprintf(&b, "%x", p.Maj23.Key())
+	}
+	keys := make([]string, 0, len(p.ByBlock))
+	for k := range p.ByBlock {
+		keys = append(keys, k)
+	}
+	sort.Strings(keys)
+	for _, k := range keys {
+		bv := p.ByBlock[k]
+		fmt.Fprintf(&b, " bb{%x pm%v %v %d}", k, bv.PeerMaj23, bv.Voters, bv.Sum)
+	}
+	keys = keys[:0]
+	for k := range p.PeerMaj {
+		keys = append(keys, k)
+	}
+	sort.Strings(keys)
+	for _, k := range keys {
+		fmt.Fprintf(&b, " pm{%s %x}", k, p.PeerMaj[k].Key())
+	}
+	return b.String()
+}
+
+func verifPSDigest(ps *types.PartSet) string {
+	if ps == nil {
+		return "nil"
+	}
+	return fmt.Sprintf("%d:%x count%d bits%v", ps.Total(), ps.Hash(), ps.Count(), ps.BitArray())
+}
+
+func verifBlockDigest(b *types.Block) string {
+	if b == nil {
+		return "nil"
+	}
+	return fmt.Sprintf("%p:%x", b, b.Hash())
+}
+
+// VerifDigest renders everything RoundState holds (all rounds of the height vote set including catch-up
+// rounds and peer majority claims, the per-peer catch-up allowance, proposal, parts, locks, last commit)
+// plus queue lengths and the heights of state and store.  Two equal digests = the consensus state is
+// exactly as it was.
+func (cs *ConsensusState) VerifDigest() string {
+	cs.mtx.Lock()
+	defer cs.mtx.Unlock()
+	var b strings.Builder
+	fmt.Fprintf(&b, "H%d R%d S%d CR%d LR%d\n", cs.Height, cs.Round, cs.Step, cs.CommitRound, cs.LockedRound)
+	if cs.Proposal != nil {
+		fmt.Fprintf(&b, "proposal %p %v\n", cs.Proposal, cs.Proposal)
+	} else {
+		b.WriteString("proposal nil\n")
+	}
+	fmt.Fprintf(&b, "pb %s\npp %s\nlb %s\nlp %s\n", verifBlockDigest(cs.ProposalBlock), verifPSDigest(cs.ProposalBlockParts),
+		verifBlockDigest(cs.LockedBlock), verifPSDigest(cs.LockedBlockParts))
+	if cs.Votes != nil {
+		hvs := cs.Votes
+		hvs.mtx.Lock()
+		fmt.Fprintf(&b, "votes h%d round%d\n", hvs.height, hvs.round)
+		rounds := make([]int64, 0, len(hvs.roundVoteSets))
+		for r := range hvs.roundVoteSets {
+			rounds = append(rounds, r)
+		}
+		sort.Slice(rounds, func(i, j int) bool { return rounds[i] < rounds[j] })
+		for _, r := range rounds {
+			rvs := hvs.roundVoteSets[r]
+			fmt.Fprintf(&b, " r%d pv %s\n r%d pc %s\n", r, verifVSDigest(rvs.Prevotes), r, verifVSDigest(rvs.Precommits))
+		}
+		peers := make([]string, 0, len(hvs.peerCatchupRounds))
+		for k := range hvs.peerCatchupRounds {
+			peers = append(peers, k)
+		}
+		sort.Strings(peers)
+		for _, k := range peers {
+			fmt.Fprintf(&b, " catchup %s %v\n", k, hvs.peerCatchupRounds[k])
+		}
+		hvs.mtx.Unlock()
+	}
+	fmt.Fprintf(&b, "lastcommit %s\n", verifVSDigest(cs.LastCommit))
+	if cs.Validators != nil {
+		fmt.Fprintf(&b, "vals %x", cs.Validators.Hash())
+		if pr := cs.Validators.Proposer(); pr != nil {
+			fmt.Fprintf(&b, " proposer %s", hex.EncodeToString(pr.Address))
+		}
+		b.WriteString("\n")
+	}
+	fmt.Fprintf(&b, "queues peer%d internal%d store%d state%d\n", len(cs.peerMsgQueue), len(cs.internalMsgQueue),
+		cs.blockStore.Height(), cs.state.LastBlockHeight)
+	return b.String()
+}
+
+// VerifRounds lists the rounds for which the height vote set holds vote sets.
+func (cs *ConsensusState) VerifRounds() []int64 {
+	cs.mtx.Lock()
+	hvs := cs.Votes
+	cs.mtx.Unlock()
+	hvs.mtx.Lock()
+	defer hvs.mtx.Unlock()
+	rounds := make([]int64, 0, len(hvs.roundVoteSets))
+	for r := range hvs.roundVoteSets {
+		rounds = append(rounds, r)
+	}
+	sort.Slice(rounds, func(i, j int) bool { return rounds[i] < rounds[j] })
+	return rounds
+}
+
+// VerifDigest is PeerState.GetRoundState as a printable digest (bit arrays by their raw fields, so that
+// inconsistent ones can be rendered too).
+func (ps *PeerState) VerifDigest() string {
+	prs := ps.GetRoundState()
+	ba := func(x *gcmn.BitArray) string {
+		if x == nil {
+			return "nil"
+		}
+		return fmt.Sprintf("{%d %v}", x.Bits, x.Elems)
+	}
+	return fmt.Sprintf("H%d R%d S%d prop%v pbph%v pbp%s polr%d pol%s pv%s pc%s lcr%d lc%s ccr%d cc%s",
+		prs.Height, prs.Round, prs.Step, prs.Proposal, prs.ProposalBlockPartsHeader, ba(prs.ProposalBlockParts),
+		prs.ProposalPOLRound, ba(prs.ProposalPOL), ba(prs.Prevotes), ba(prs.Precommits), prs.LastCommitRound,
+		ba(prs.LastCommit), prs.CatchupCommitRound, ba(prs.CatchupCommit))
+}
